@@ -21,6 +21,14 @@ fn probe() -> Req {
 // yields z(v%K) with P_v true, or a(..) of the wrong version - neither is any single list's decision.
 fn list(v: u64) -> Vec<serde_json::Value> {
     let p = if v % 2 == 0 { "request.listener == \"probe\"" } else { "request.listener == \"nobody\"" };
+    // every third version carries a long first filter (a block list of a few kilobytes that never matches the probe): rules
+    // that differ in size are the ones an implementation might treat differently (compile elsewhere, finish later)
+    let p = if v % 3 == 0 {
+        let hosts: Vec<String> = (0..(60 + 40 * (v % 7))).map(|i| format!("\"blocked-{}.example\"", i)).collect();
+        format!("({}) || request.target.host _: [{}]", p, hosts.join(", "))
+    } else {
+        p.to_string()
+    };
     let mut l = vec![serde_json::json!({"filter": p, "target": format!("a{}", v % K)})];
     // the lists differ in length (14, 12, .. 6 rules), and every fourth one has no catch-all at its end: whatever an
     // implementation keeps of a longer predecessor then decides the probe, which no version does
